@@ -2,11 +2,12 @@
 C05 — Loading and re-writing a RapidPro export is lossless.
 -/
 import Rpft.Lemmas.Document
+import Rpft.DocumentWitness
 import Rpft.Gen.Tables
 set_option linter.unusedSimpArgs false
 set_option linter.unusedVariables false
 namespace Rpft.Props.C05
-open Rpft Rpft.Document
+open Rpft Rpft.Document Rpft.Document.Witness
 
 /-- the action types the model treats as records / as pass-through -/
 def specialTypes : List Str :=
@@ -75,70 +76,58 @@ theorem legacy_trigger (t : TriggerD) (k : Blob) (tc : TriggerC)
     · simp [renderTrigger, hn]
 
 /-- non-vacuity of `legacy_trigger`: a concrete legacy keyword trigger loads -/
-def wLegacy : TriggerD :=
-  { type := strK, keyword := some "\"hi\"".toList, keywords := none, channel := jNull, matchType := none,
-    flow := { name := "f".toList, uuid := "u".toList }, groups := [], excludeGroups := none }
 example : (match loadTrigger wLegacy with | .ok _ => true | .error _ => false) = true := by decide
 
 /-! ### concrete documents: non-vacuity and negative witnesses -/
 
-section witnesses
 
-def wExit (u : String) : ExitD := { uuid := u.toList, dest := none }
-def wFlow (nodes : List NodeD) : FlowD :=
-  { uuid := "f1".toList, name := "flow".toList, language := "\"eng\"".toList, type := "\"messaging\"".toList,
-    specVersion := "\"13.1.0\"".toList, revision := "1".toList, expire := "10080".toList,
-    metadata := jEmptyObj, localization := jEmptyObj, nodes := nodes, ui := none }
-def wDoc (nodes : List NodeD) (groups : List GroupD := []) : DocD :=
-  { campaigns := [], fields := jEmptyArr, flows := [wFlow nodes], groups := groups,
-    site := "\"https://example.org\"".toList, triggers := [], version := "\"13\"".toList }
-def wCat (u name e : String) : CategoryD := { uuid := u.toList, name := name.toList, exitUuid := e.toList }
-def wSwitch (cats : List CategoryD) (dflt : String) : RouterD :=
-  .switch "\"@input.text\"".toList [] cats dflt.toList none none
+/-- **non-vacuity** of `render_load`: `docRich` satisfies every hypothesis … -/
+theorem docRich_hyps : Valid docRich ∧ OrderedCats docRich ∧ ExitsByCats docRich ∧ UntypedFields docRich ∧
+    PlainGroups docRich := by
+  refine ⟨⟨?_, ?_, ?_, ?_, ?_, ?_, ?_, ?_, ⟨?_, ?_⟩, ?_⟩, ?_, ?_, ?_, ?_⟩ <;> decide
 
-/-- default category last, exits in category order: inside every hypothesis -/
-def docGood : DocD :=
-  wDoc [{ uuid := "n1".toList, actions := [], exits := [wExit "e1", wExit "e2"],
-          router := some (wSwitch [wCat "c1" "Yes" "e1", wCat "c2" "Other" "e2"] "c2") }]
-
-/-- the default category comes first (F-C05-c) -/
-def docDefaultFirst : DocD :=
-  wDoc [{ uuid := "n1".toList, actions := [], exits := [wExit "e2", wExit "e1"],
-          router := some (wSwitch [wCat "c2" "Other" "e2", wCat "c1" "Yes" "e1"] "c2") }]
-
-/-- exits not in category order (F-C05-d) -/
-def docExitsPermuted : DocD :=
-  wDoc [{ uuid := "n1".toList, actions := [], exits := [wExit "e2", wExit "e1"],
-          router := some (wSwitch [wCat "c1" "Yes" "e1", wCat "c2" "Other" "e2"] "c2") }]
-
-/-- a typed contact-field reference (F-C05-a) -/
-def docTypedField : DocD :=
-  wDoc [{ uuid := "n1".toList, router := none, exits := [wExit "e1"],
-          actions := [.setContactField "\"a1\"".toList "\"Age\"".toList "\"age\"".toList (some "\"number\"".toList) "\"7\"".toList] }]
-
-/-- a top-level group with a query (F-C05-b) -/
-def docGroupQuery : DocD :=
-  wDoc [] [{ name := "g".toList, uuid := "u".toList, query := some "\"age > 18\"".toList }]
-
-end witnesses
+/-- … and the kernel computes that its round trip is indeed lossless (an instance of the theorem,
+evaluated independently of its proof) -/
+theorem docRich_lossless : lossless docRich = true := by decide
 
 /-- the round trip of the good document is lossless (computed by the kernel) -/
 theorem docGood_lossless : lossless docGood = true := by decide
 
-/-- **negative witness** for `OrderedCats`: without it the statement is false — the
-document is valid, its exits follow its categories, yet the round trip reorders it. -/
-theorem render_load_needs_OrderedCats :
-    (∀ n ∈ allNodes docDefaultFirst, exitsByCats n = true) ∧ lossless docDefaultFirst = false := by decide
+/-- `lossless` is the executable form of the conclusion of `roundtrip_lossless` -/
+theorem lossless_iff (d : DocD) : lossless d = true ↔ ∃ o, roundtrip d = .ok o ∧ o ≈ d := by
+  unfold lossless Equiv
+  cases roundtrip d with
+  | error e => simp
+  | ok o => simp
 
-/-- **negative witness** for `ExitsByCats`. -/
+def AllButOrdered (d : DocD) : Prop := Valid d ∧ ExitsByCats d ∧ UntypedFields d ∧ PlainGroups d
+def AllButExits (d : DocD) : Prop := Valid d ∧ OrderedCats d ∧ UntypedFields d ∧ PlainGroups d
+def AllButUntyped (d : DocD) : Prop := Valid d ∧ OrderedCats d ∧ ExitsByCats d ∧ PlainGroups d
+def AllButPlain (d : DocD) : Prop := Valid d ∧ OrderedCats d ∧ ExitsByCats d ∧ UntypedFields d
+
+/-- **negative witness** for `OrderedCats` (F-C05-c): every other hypothesis holds, yet the
+conclusion of `roundtrip_lossless` is false — the round trip reorders categories and exits. -/
+theorem render_load_needs_OrderedCats :
+    AllButOrdered docDefaultFirst ∧ ¬ ∃ o, roundtrip docDefaultFirst = .ok o ∧ o ≈ docDefaultFirst := by
+  rw [← lossless_iff]
+  refine ⟨⟨⟨?_, ?_, ?_, ?_, ?_, ?_, ?_, ?_, ⟨?_, ?_⟩, ?_⟩, ?_, ?_, ?_⟩, ?_⟩ <;> decide
+
+/-- **negative witness** for `ExitsByCats` (F-C05-d). -/
 theorem render_load_needs_ExitsByCats :
-    (∀ n ∈ allNodes docExitsPermuted, (n.router.map orderedRouter).getD true = true) ∧
-    lossless docExitsPermuted = false := by decide
+    AllButExits docExitsPermuted ∧ ¬ ∃ o, roundtrip docExitsPermuted = .ok o ∧ o ≈ docExitsPermuted := by
+  rw [← lossless_iff]
+  refine ⟨⟨⟨?_, ?_, ?_, ?_, ?_, ?_, ?_, ?_, ⟨?_, ?_⟩, ?_⟩, ?_, ?_, ?_⟩, ?_⟩ <;> decide
 
 /-- **negative witness** for `UntypedFields` (F-C05-a). -/
-theorem render_load_needs_UntypedFields : lossless docTypedField = false := by decide
+theorem render_load_needs_UntypedFields :
+    AllButUntyped docTypedField ∧ ¬ ∃ o, roundtrip docTypedField = .ok o ∧ o ≈ docTypedField := by
+  rw [← lossless_iff]
+  refine ⟨⟨⟨?_, ?_, ?_, ?_, ?_, ?_, ?_, ?_, ⟨?_, ?_⟩, ?_⟩, ?_, ?_, ?_⟩, ?_⟩ <;> decide
 
 /-- **negative witness** for `PlainGroups` (F-C05-b). -/
-theorem render_load_needs_PlainGroups : lossless docGroupQuery = false := by decide
+theorem render_load_needs_PlainGroups :
+    AllButPlain docGroupQuery ∧ ¬ ∃ o, roundtrip docGroupQuery = .ok o ∧ o ≈ docGroupQuery := by
+  rw [← lossless_iff]
+  refine ⟨⟨⟨?_, ?_, ?_, ?_, ?_, ?_, ?_, ?_, ⟨?_, ?_⟩, ?_⟩, ?_, ?_, ?_⟩, ?_⟩ <;> decide
 
 end Rpft.Props.C05
